@@ -1,6 +1,7 @@
 """C07 — acquisition indices enumerate measurements exactly, in order (DESIGN.md 7, C07)."""
 import copy
 from common import cz, cbool, clist
+import coregen
 
 ID = 'C07'
 GEN_MODULES = ['Ident', 'Classes']
@@ -8,7 +9,7 @@ MODEL_TARGETS = ['coq/C07/Run.vo']
 PROOF_TARGETS = ['coq/C07/Proofs.vo', 'coq/C07/CoreBridge.vo', 'coq/C07/CoreBridgeProofs.vo']
 PROPS_FILE = 'coq/Props/C07.v'
 RUN_MODULE = 'QCE.C07.Run'
-COQ_HEADER = 'From QCE Require Import C07.Model.\nFrom Gen Require Import Ident.'
+COQ_HEADER = 'From Gen Require Import Ident Classes.\nFrom QCE Require Import Core.Model Core.Run C07.Model.'
 IMPL = 'harness/impl/c07_impl.py'
 SHARD = 60
 IMPL_KW = {'shards': 8}
@@ -188,9 +189,28 @@ def gen_two_branch(rng):
     return {'k': 'prog', 'circ': {'rep': rng.choice([1, 1, 2]), 'cmds': cmds}, 'observe_before': rng.random() < 0.3}
 
 
+def gen_repeated_two_chain(rng):
+    """a repeated block with two parallel chains: one long operation on q0, several measurements of q1 ending (or not) in an
+    operation without length; every pass must be listed after the previous one (the family of F14 and of seed C07-3)"""
+    cmds = [{'op': 'Wait', 'q': 0, 'd': rng.choice([20, 28, 40])}]
+    cmds += [{'op': 'M', 'q': 1, 'tag': rng.choice([0, 1, 3]), 'reg': 'own'} for _ in range(rng.randint(2, 3))]
+    tail = rng.choice(['none', 'zero-wait', 'zero-wait', 'rx'])
+    if tail == 'zero-wait':
+        cmds.append({'op': 'Wait', 'q': 1, 'd': 0})
+    elif tail == 'rx':
+        cmds.append({'op': 'Rx180', 'q': 1})
+    if rng.random() < 0.3:
+        cmds.insert(0, {'op': 'Rx180', 'q': 1})
+    circ = {'rep': rng.choice([2, 2, 3]), 'cmds': cmds}
+    if rng.random() < 0.3:
+        circ = {'rep': 1, 'cmds': [{'op': 'sub', 'circ': circ}, {'op': 'M', 'q': 1, 'tag': 4, 'reg': 'own'}]}
+    return {'k': 'prog', 'circ': circ, 'observe_before': rng.random() < 0.3}
+
+
 def gen_cases(rng, tier):
     n = 500 if tier == 'quick' else 5000
     cases = [gen_case(rng) for _ in range(n)]
+    cases += [gen_repeated_two_chain(rng) for _ in range(15 if tier == 'quick' else 150)]
     cases += [gen_two_branch(rng) for _ in range(20 if tier == 'quick' else 200)]
     # library-built circuits (repetition code): the start-time clause is claimed for them as well
     libs = [([0, 1], 1), ([0, 1, 0], 3), ([1, 0, 1], 2), ([0, 1, 0], 0)] if tier == 'quick' else \
@@ -254,12 +274,50 @@ def c_obs(o):
             f"{cbool(o['uids_consistent'])})")
 
 
+ENV = {'READOUT': 2.0, 'MICROWAVE': 1.0, 'FLUX': 1.0, 'RESET': 2.0}      # = harness/impl/c07_impl.py ENV
+
+
+def core_prog(circ):
+    """the build program in coregen's vocabulary (what Core.Model.run_prog runs)"""
+    out = []
+    for c in circ['cmds']:
+        if c['op'] == 'sub':
+            out.append({'t': 'sub', 'reps': c['circ'].get('rep', 1), 'body': core_prog(c['circ'])})
+            continue
+        rel = c.get('rel')
+        rel = None if rel is None else [rel[1], rel[0]]
+        if c['op'] == 'M':
+            out.append({'t': 'leaf', 'cls': 'DispersiveMeasure', 'q': [c['q']], 'tag': TAGS[c['tag']], 'rel': rel})
+        elif c['op'] == 'Wait':
+            out.append({'t': 'leaf', 'cls': 'Wait', 'q': [c['q']], 'dur': ['fixed', c['d'] / 4], 'ch': 'ALL', 'rel': rel})
+        elif c['op'] == 'Rx180':
+            out.append({'t': 'leaf', 'cls': 'Rx180', 'q': [c['q']], 'rel': rel})
+        elif c['op'] == 'CPhase':
+            out.append({'t': 'leaf', 'cls': 'CPhase', 'q': list(c['q']), 'rel': rel})
+        elif c['op'] == 'Barrier':
+            out.append({'t': 'leaf', 'cls': 'Barrier', 'q': list(c['q']), 'rel': None})
+        else:
+            raise ValueError(c['op'])
+    return out
+
+
+def c_tie(c, o):
+    """Core tie: the program as Core commands and the implementation's measurements (qubit, tag, start) in listing order"""
+    if is_lib(c):
+        return 'None'
+    import libgen        # registers the library tag names in coregen.TAGS
+    env = f"(mk_env {cz(coregen.t8(ENV['READOUT']))} {cz(coregen.t8(ENV['MICROWAVE']))} {cz(coregen.t8(ENV['FLUX']))} {cz(coregen.t8(ENV['RESET']))} [])"
+    prog = coregen.c_prog(core_prog(c['circ']), None, {}, [0])
+    impl = clist([f"({cz(m['q'])}, {cz(coregen.TAGS[TAGS[m['tag']]])}, {cz(m['start'])})" for m in o['after']['meas']])
+    return f"(Some (MkTie {env} {cz(c['circ'].get('rep', 1))} {prog} {impl}))"
+
+
 def to_coq(c, o):
     if 'error' in o or 'after' not in o:
         return "CError"
     before = f"(Some {c_obs(o['before'])})" if 'before' in o else "None"
     timed = is_lib(c) or not has_rel(c['circ'])      # library-built, or implicitly sequenced: the start-time clause applies
-    return f"(CProg {cbool(wellformed(c))} {cbool(timed)} {before} {c_obs(o['after'])})"
+    return f"(CProg {cbool(wellformed(c))} {cbool(timed)} {before} {c_obs(o['after'])} {c_tie(c, o)})"
 
 
 # ----------------------------------------------------------------------------------------- metadata
@@ -478,12 +536,15 @@ def explained_by_inversion(a):
     return all(x['pos'] not in anc(y['pos']) and y['pos'] not in anc(x['pos']) for x, y in inv)
 
 
-def known_class(c, o):
+def known_class(c, o, agree_ok=True):
     if 'error' in o or 'after' not in o or not wellformed(c) or is_lib(c):
         return None
     if alias_possible(c) and explained_by_alias(o):
         return KNOWN_ALIAS
-    if not has_rel(c['circ']) and explained_by_inversion(o['after']):
+    # F20 is a consequence of the ACCEPTED placement rule: it is only recognised where the implementation lists and times the
+    # measurements exactly as the Core model does (agree_ok: the tie of this case holds); a listing the model does not predict is
+    # a different failure
+    if agree_ok and not has_rel(c['circ']) and explained_by_inversion(o['after']):
         return KNOWN_INVERSION
     return None
 
